@@ -1,6 +1,6 @@
 From Coq Require Import Extraction ExtrOcamlBasic.
-From Mamba Require Import Search.Model Search.ShardModel Search.ShardPreds Search.OrderlyInstCheckModel Search.OrderlyInstKsubModel.
+From Mamba Require Import Search.Model Search.ShardModel Search.ShardPreds Search.OrderlyInstCheckModel Search.OrderlyInstKsubModel Search.ComposeModel.
 Extraction Language OCaml.
 Extraction "model.ml" outputs init p_edges3 p_maxdeg2 p_triangle p_none
   check_upto check_level check_graph check_perm check_orb check_ksub check_early label_check label_pair_check
-  vbs_all vbs_deg vbs_mixed all_graphs get_aut vg_of_edges ksub_real is_canonical add_augs.
+  vbs_all vbs_deg vbs_mixed all_graphs get_aut vg_of_edges ksub_real is_canonical add_augs canon_real.
